@@ -115,7 +115,7 @@ def configs(tier):
         cfg = {"key": key, "fn": fn, "params": params}
         if fn == "h_cross" and "rank-deficient" not in key:
             cfg["options"] = {"full_rank": True}
-            if tier == "quick" and params.get("cplx") and params.get("use_pca"):
+            if tier == "quick" and params.get("cplx") and (params.get("use_pca") or params.get("cls") == "ComplexCPCCA"):
                 cfg["options"]["budget_s"] = 100  # two PCA + one cross SVD on complex symbols: the transform-after-inverse obligations may stay INCONCLUSIVE in the quick tier
         out.append(cfg)
 
@@ -150,6 +150,8 @@ def configs(tier):
             add("h_cross", f"{cls}|pca=1", cls=cls, n=4, p=2, q=2, use_pca=True)
     add("h_cross", "ComplexMCA", cls="ComplexMCA", n=4, p=2, q=2, use_pca=False, cplx=True)
     add("h_cross", "ComplexMCA|pca=1", cls="ComplexMCA", n=4, p=2, q=2, use_pca=True, cplx=True)
+    if tier == "quick":
+        add("h_cross", "ComplexCPCCA|alpha=[1.0,0.0]", cls="ComplexCPCCA", n=4, p=2, q=2, alpha=[1.0, 0.0], use_pca=False, cplx=True)  # complex whitening of one field
     if tier == "thorough":
         add("h_cross", "CPCCA|alpha=0.5|weights|standardize", cls="CPCCA", n=4, p=2, q=2, alpha=0.5, use_pca=False, weights=True, flags={"standardize": True})
         add("h_cross", "ComplexCPCCA|alpha=0.5", cls="ComplexCPCCA", n=4, p=2, q=2, alpha=0.5, use_pca=False, cplx=True)
